@@ -23,17 +23,21 @@ struct Rb(u8);
 #[derive(Component, Default, Deserialize, Reflect, Serialize, Clone, PartialEq, Debug)]
 #[reflect(Component)]
 struct Un(u8);
+/// Registered with the type registry but without `#[reflect(Component)]`.
+#[derive(Component, Default, Deserialize, Reflect, Serialize, Clone, PartialEq, Debug)]
+struct Nc(u8);
 /// Registered and reflected, but no replication rule selects it.
 #[derive(Component, Default, Deserialize, Reflect, Serialize, Clone, PartialEq, Debug)]
 #[reflect(Component)]
 struct Nr(u8);
 
-const RULES: [&str; 6] = ["rule Ra", "rule Rb", "bundle (Ra,Rb)", "rule Ra priority 5", "rule Un", "bundle (Ra,Un)"];
+const RULES: [&str; 8] = ["rule Ra", "rule Rb", "bundle (Ra,Rb)", "rule Ra priority 5", "rule Un", "bundle (Ra,Un)", "bundle (Ra,Nc,Rb)", "bundle (Rb,Ra)"];
 // component bits
 const CA: u8 = 1;
 const CB: u8 = 2;
 const CU: u8 = 4;
 const CN: u8 = 8;
+const CC: u8 = 16;
 
 #[derive(Clone, Copy, Debug, PartialEq, Eq, PartialOrd, Ord, Serialize)]
 struct Ent {
@@ -43,14 +47,14 @@ struct Ent {
 
 #[derive(Clone, Debug, Serialize)]
 struct Case {
-    rules: u8,
+    rules: u16,
     ents: Vec<Ent>,
     prefilled: bool,
 }
 
 impl Case {
     fn show(&self) -> String {
-        let rules: Vec<&str> = (0..6).filter(|i| self.rules & (1 << i) != 0).map(|i| RULES[i]).collect();
+        let rules: Vec<&str> = (0..8).filter(|i| self.rules & (1 << i) != 0).map(|i| RULES[i]).collect();
         let ents: Vec<String> = self
             .ents
             .iter()
@@ -59,7 +63,7 @@ impl Case {
                 if e.marked {
                     c.push("Replicated");
                 }
-                for (b, n) in [(CA, "Ra"), (CB, "Rb"), (CU, "Un"), (CN, "Nr")] {
+                for (b, n) in [(CA, "Ra"), (CB, "Rb"), (CU, "Un"), (CN, "Nr"), (CC, "Nc")] {
                     if e.comps & b != 0 {
                         c.push(n);
                     }
@@ -74,7 +78,7 @@ impl Case {
 fn build(case: &Case) -> (App, Vec<Entity>) {
     let mut app = App::new();
     app.init_resource::<Time>().add_plugins(RepliconPlugins);
-    app.register_type::<Ra>().register_type::<Rb>().register_type::<Nr>();
+    app.register_type::<Ra>().register_type::<Rb>().register_type::<Nr>().register_type::<Nc>();
     if case.rules & 1 != 0 {
         app.replicate::<Ra>();
     }
@@ -92,6 +96,12 @@ fn build(case: &Case) -> (App, Vec<Entity>) {
     }
     if case.rules & 32 != 0 {
         app.replicate_bundle::<(Ra, Un)>();
+    }
+    if case.rules & 64 != 0 {
+        app.replicate_bundle::<(Ra, Nc, Rb)>();
+    }
+    if case.rules & 128 != 0 {
+        app.replicate_bundle::<(Rb, Ra)>();
     }
     app.finish();
     app.cleanup();
@@ -113,6 +123,9 @@ fn build(case: &Case) -> (App, Vec<Entity>) {
         }
         if e.comps & CN != 0 {
             em.insert(Nr(v + 4));
+        }
+        if e.comps & CC != 0 {
+            em.insert(Nc(v + 5));
         }
         ids.push(em.id());
     }
@@ -139,6 +152,12 @@ fn expected(case: &Case) -> BTreeMap<usize, u8> {
     }
     if case.rules & 32 != 0 {
         rules.push(CA | CU);
+    }
+    if case.rules & 64 != 0 {
+        rules.push(CA | CC | CB);
+    }
+    if case.rules & 128 != 0 {
+        rules.push(CB | CA);
     }
     let mut out = BTreeMap::new();
     for (i, e) in case.ents.iter().enumerate() {
@@ -208,6 +227,8 @@ fn check_case(case: &Case) -> Result<u64, (String, String)> {
                 "Nr"
             } else if c.try_downcast_ref::<Un>().is_some() {
                 "Un"
+            } else if c.try_downcast_ref::<Nc>().is_some() {
+                "Nc"
             } else if c.try_downcast_ref::<Replicated>().is_some() {
                 "Replicated"
             } else {
@@ -226,7 +247,7 @@ fn check_case(case: &Case) -> Result<u64, (String, String)> {
                 ));
             }
         }
-        for name in ["Replicated", "Un", "other"] {
+        for name in ["Replicated", "Un", "Nc", "other"] {
             if counts.get(name).copied().unwrap_or(0) != 0 {
                 return Err(("unreplicated-component".into(), format!("entity #{i}: {name} must not be exported")));
             }
@@ -264,7 +285,7 @@ fn check_case(case: &Case) -> Result<u64, (String, String)> {
 fn cases(tier: Tier) -> Vec<Case> {
     let mut kinds: Vec<Ent> = Vec::new();
     for marked in [true, false] {
-        for comps in 0..16u8 {
+        for comps in 0..32u8 {
             kinds.push(Ent { marked, comps });
         }
     }
@@ -281,7 +302,7 @@ fn cases(tier: Tier) -> Vec<Case> {
         }
     }
     let mut out = Vec::new();
-    for rules in 0..64u8 {
+    for rules in 0..256u16 {
         for w in &worlds {
             for prefilled in [false, true] {
                 out.push(Case { rules, ents: w.clone(), prefilled });
@@ -318,7 +339,7 @@ pub fn run(tier: Tier, _budget: f64, out: &mut Outcome) -> Result<(), MachineryE
     out.transitions += all.len() as u64;
     out.samples.push(json!(all[all.len() / 3].show()));
     out.samples.push(json!(all[all.len() / 2 + 7].show()));
-    out.reports.push(json!({"cases": all.len(), "rule_sets": 64, "distinct_exports": outcomes.len(), "exhaustive_within_bound": true}));
+    out.reports.push(json!({"cases": all.len(), "rule_sets": 256, "distinct_exports": outcomes.len(), "exhaustive_within_bound": true}));
     eprintln!("  C18: {} cases, {} non-trivial, {} distinct exports, {} failing", all.len(), nontrivial, outcomes.len(), bad.len());
     out.violation_total += bad.len() as u64;
 
@@ -350,7 +371,7 @@ pub fn run(tier: Tier, _budget: f64, out: &mut Outcome) -> Result<(), MachineryE
 pub fn replay(doc: &serde_json::Value) -> i32 {
     let c = &doc["case"];
     let case = Case {
-        rules: c["rules"].as_u64().unwrap() as u8,
+        rules: c["rules"].as_u64().unwrap() as u16,
         ents: c["ents"].as_array().unwrap().iter().map(|e| Ent { marked: e["marked"].as_bool().unwrap(), comps: e["comps"].as_u64().unwrap() as u8 }).collect(),
         prefilled: c["prefilled"].as_bool().unwrap(),
     };
